@@ -403,7 +403,8 @@ func (ssc *defaultStatefulSetControl) updateStatefulSet(
 		}
 		if !isHealthy(replicas[i]) {
 			unhealthy++
-			if ord := getOrdinal(replicas[i]); ord < firstUnhealthyOrdinal {
+			// the first unhealthy Pod found counts even at the highest ordinal an int32 can hold
+			if ord := getOrdinal(replicas[i]); firstUnhealthyPod == nil || ord < firstUnhealthyOrdinal {
 				firstUnhealthyOrdinal = ord
 				firstUnhealthyPod = replicas[i]
 			}
@@ -413,7 +414,7 @@ func (ssc *defaultStatefulSetControl) updateStatefulSet(
 	for i := range condemned {
 		if !isHealthy(condemned[i]) {
 			unhealthy++
-			if ord := getOrdinal(condemned[i]); ord < firstUnhealthyOrdinal {
+			if ord := getOrdinal(condemned[i]); firstUnhealthyPod == nil || ord < firstUnhealthyOrdinal {
 				firstUnhealthyOrdinal = ord
 				firstUnhealthyPod = condemned[i]
 			}
